@@ -22,7 +22,7 @@ TRUSTED = ["argparse rejects values outside `choices` and malformed dates with e
            "A-ANNOT, A-DT (dateutil total-or-raising) as for C03/C04", "helper predicates _is_table_begin/_is_table_end/_is_empty are mutually exclusive (checked on their bodies: shape obligation)",
            "header heuristic: the first row after a table keyword that fails to build a transaction is taken as the header (documented TODO in parse_ods; not a listed fault class)"]
 ASSUMPTIONS = TRUSTED
-E2E = {"quick": 2, "thorough": 40, "on_doubt": 6, "cli": True}
+E2E = {"quick": 2, "thorough": 60, "on_doubt": 6, "cli": True}
 TX = ["rp2.in_transaction.InTransaction", "rp2.out_transaction.OutTransaction", "rp2.intra_transaction.IntraTransaction"]
 C12_LABELS = ("asset_known", "exchange_holder_known", "accounts_known", "type_allowed_in_table", "is_move", "crypto_in_positive", "spot_price_stored_nonzero", "not_both_fees",
               "fees_nonneg", "disposal_positive", "fee_only_shape", "sent_positive_received_le_sent", "fee_needs_spot_price", "timestamp_parsed_with_zone", "asset_matches",
@@ -32,7 +32,7 @@ C12_LABELS = ("asset_known", "exchange_holder_known", "accounts_known", "type_al
 def items(pr):
     out = [fn(c + ".__init__") for c in TX]
     out.append(fn("rp2.transaction_set.TransactionSet.add_entry"))
-    out += [custom("parse_ods_structure", structure), custom("numbers", numbers), custom("handlers", handlers), custom("main_flow", main_flow)]
+    out += [custom("parse_ods_structure", structure), custom("row_classes", row_classes), custom("numbers", numbers), custom("handlers", handlers), custom("main_flow", main_flow)]
     return out
 
 
@@ -149,6 +149,10 @@ def structure(pr):
          lambda p: z3.And(z3.BoolVal(quiet(p)), p.env[("some", "current_table_type")], p.env["current_table_row_count"] == 1))
     case("table_end_closes_the_table", [in_table, end], lambda p: z3.And(z3.BoolVal(quiet(p)), z3.Not(p.env[("some", "current_table_type")])))
     case("blank_row_between_tables_is_skipped", [z3.Not(in_table), empty], lambda p: z3.And(z3.BoolVal(quiet(p)), z3.Not(p.env[("some", "current_table_type")])))
+    # --- the loop visits every row: no path leaves it other than by raising
+    early = [p for p in paths if p.done in ("break", "return")]
+    out.append(A.bvc(Q, "case", "row_loop_never_stops_before_the_last_row", not early and not [n for n in ast.walk(lp) if isinstance(n, (ast.Break, ast.Return))], f"{REL}:{lp.lineno}",
+                     "a break / return inside the row loop leaves the rest of the sheet unread: rows and structural faults after it are silently ignored"))
     # --- after the loop
     after = f.body[f.body.index(lp) + 1:] if lp in f.body else []
     F = A.Fn(pr.tree, Q)
@@ -166,6 +170,61 @@ def structure(pr):
                      F.has("return InputData(asset, unfiltered_transaction_sets[EntrySetType.IN], unfiltered_transaction_sets[EntrySetType.OUT], unfiltered_transaction_sets[EntrySetType.INTRA], configuration.from_date, configuration.to_date)"), REL))
     out.append(A.bvc(Q, "shape", "missing_sheet_is_rejected", F.has("if asset not in input_file_handle.sheets.names():\n    raise RP2ValueError(ANY)"), REL))
     return out
+
+
+# value classes a first cell can have (ezodf returns None, str, float, bool, datetime.date / datetime / time strings) with the statement's reading
+CELL_CLASSES = [("None", None, "empty"), ("empty string", "", "empty"), ("IN keyword", "IN", "begin"), ("out keyword, lower case", "out", "begin"), ("INTRA keyword", "INTRA", "begin"),
+                ("TABLE END", "TABLE END", "end"), ("other text", "2020-01-01 10:00:00 +0000", "other"), ("text that is no keyword", "INX", "other"), ("numeric zero", 0.0, "other"),
+                ("integer zero", 0, "other"), ("positive number", 0.25, "other"), ("negative number", -3.0, "other"), ("False", False, "other"), ("True", True, "other"),
+                ("blank text", " ", "other"), ("MIXED (an entry-set type that is not a table)", "MIXED", "other")]
+
+
+def row_classes(pr):
+    """The decision table treats begin / end / empty as opaque predicates of the first cell.  Their meaning is fixed here by evaluating the real
+    helpers of the tree under test on one representative of every value class a cell can have (complete for these classes; the helpers are
+    three one-line functions of the value alone)."""
+    from pyvc.replay import run_native
+    res = run_native("C12", {"kind": "cell_classes"}, pr.repo)
+    out = []
+    got = res.get("classes")
+    if not isinstance(got, dict):
+        return [A.bvc("rp2.ods_parser/<module>", "case", "row_class_helpers_could_be_evaluated", False, REL, str(res)[:400], open_=True)]
+    for name, value, want in CELL_CLASSES:
+        g = got.get(name)
+        ok = g is not None and g == {"begin": want == "begin", "end": want == "end", "empty": want == "empty"}
+        vc = A.bvc("rp2.ods_parser/<module>", "case", f"first_cell_{A._lab(name)}_is_classified_{want}", ok, REL, f"value {value!r}: helpers say {g}")
+        vc.note = json_note({"kind": "cell_classes", "name": name})
+        out.append(vc)
+    return out
+
+
+def replay(pr, vc, model):
+    """Obligations decided by evaluating the real helpers carry their native description: replay it against the tree under test."""
+    import json
+    from pyvc.replay import run_native
+    if (vc.note or "").startswith("native:"):
+        desc = json.loads(vc.note[len("native:"):])
+        return {"desc": desc, **run_native("C12", desc, pr.repo)}
+    return None
+
+
+def json_note(d):
+    import json
+    return "native:" + json.dumps(d)
+
+
+def native(desc):
+    if desc.get("kind") == "cell_classes":
+        from rp2 import ods_parser
+        out = {}
+        for name, value, want in CELL_CLASSES:
+            try:
+                out[name] = {"begin": bool(ods_parser._is_table_begin(value)), "end": bool(ods_parser._is_table_end(value)), "empty": bool(ods_parser._is_empty(value))}
+            except Exception as exc:
+                out[name] = {"error": f"{type(exc).__name__}: {exc}"}
+        bad = [n for n, v, w in CELL_CLASSES if out[n] != {"begin": w == "begin", "end": w == "end", "empty": w == "empty"}]
+        return {"reproduced": bool(bad), "classes": out, "observed": {n: out[n] for n in bad}, "required": "empty <=> None or ''; begin <=> IN/OUT/INTRA (any case); end <=> 'TABLE END'"}
+    return {"reproduced": False}
 
 
 def numbers(pr):
@@ -268,6 +327,12 @@ def main_flow(pr):
         out.append(VC(q, "case", "otherwise_the_run_goes_on", [z3.Not(z3.And(m, c))],
                       z3.And(*[z3.Implies(z3.And(*p.cond), z3.BoolVal(not exits(p))) for p in live2]) if live2 else z3.BoolVal(False), rel, 0))
     SA = A.Fn(pr.tree, "rp2.rp2_main._setup_argument_parser")
+    madd = [c for c in ast.walk(SA.node) if isinstance(c, ast.Call) and isinstance(c.func, ast.Attribute) and c.func.attr == "add_argument" and
+            any(isinstance(a, ast.Constant) and a.value == "--method" for a in c.args)] if SA else []
+    dflt = [k.value for c in madd for k in c.keywords if k.arg == "default"]
+    out.append(A.bvc(SA.qual, "shape", "method_option_defaults_to_nothing_so_that_its_presence_can_be_tested", len(madd) == 1 and
+                     (not dflt or (isinstance(dflt[0], ast.Constant) and not dflt[0].value)), rel,
+                     "the conflict test `args.method and <config schedule>` reads the option's truthiness: a non-empty default makes every config with an [accounting_methods] section unusable"))
     out.append(A.bvc("rp2.rp2_main._setup_argument_parser", "shape", "method_option_is_restricted_to_the_countrys_methods", SA.expr("choices=accounting_methods") and
                      SA.has("accounting_methods = _validate_accounting_methods(country)"), rel))
     out.append(A.bvc(q, "flow", "unknown_method_plugin_exits_1", F.has("try:\n    accounting_method_module = import_module(ANY, package=_ACCOUNTING_METHOD_PACKAGE)\nexcept ModuleNotFoundError:\n    ...\n    sys.exit(1)"), rel))
